@@ -42,7 +42,7 @@ def run(ctx):
     trace = os.path.join(ctx.scratch, "c20-trace.ndjson")
     nrand = 300 if quick else 4000
     rc, out = ctx.go_run_test(binary, "^TestVfReceiver$", env={"VF_SCENARIOS": scen, "VF_OUT": trace, "VF_RANDOM": nrand,
-                                                               "VERIF_SEED": ctx.seed}, timeout=1500)
+                                                               "VERIF_SEED": ctx.seed, "VERIF_TIER": ctx.tier}, timeout=1500)
     extra = vf.crash_events(ctx, rc, out, "receiver")
     if extra:
         ev0 = vf.read_ndjson(trace) if os.path.exists(trace) else []
